@@ -129,7 +129,7 @@ structure SCtx where
    definitions only at top level (the Batch converter relies on them: it keeps construct stacks) -/
 mutual
 def Stmt.placed (c : SCtx) : Stmt → Bool
-  | .funcDef _ _ _ _ body => !c.inFunc && !c.inLoop && placedStmts { c with inLoop := false, inFunc := true } body
+  | .funcDef name _ _ _ body => !c.inFunc && !c.inLoop && name != "" && placedStmts { c with inLoop := false, inFunc := true } body
   | .ret _ => c.inFunc
   | .ifS _ body elifs els => placedStmts c body && placedElifs c elifs && placedStmts c els
   | .forS init _ incr body => placedOpt c init && placedOpt { c with inLoop := true } incr && placedStmts { c with inLoop := true } body
